@@ -269,7 +269,36 @@ theorem verdictM_iff_spec (s : SchemaD) (fx : Fixes) (hfx : HeadVars fx) (hs : S
         ∀ r ∈ Rule.all, SpecAll r s fx d := by
   rw [verdictM_iff_alone s fx hfx.2.2.2 d ((wfIdsB_iff d).mp hd.checks.ids), verdict_iff_all_memo s fx hfx hs d hd]
 
+/-- **THE HEADLINE, for the code of /repo HEAD**: the model's verdict on a document - the chain of all 26 visitors with the
+    memoised overlap search and `ChainedVisitor`'s `SkipNode` handling, compared with `validate_ast` on every generated
+    document - is "accepted" iff validation raises nothing and the document satisfies the clause of every one of the 26
+    rules, 5.5.1.4 in its proper form (`SpecStd`). Hypotheses: `SchemaOutputs s` (schema validation) and `DocOkM` (the
+    parser's guarantees `wfIdsB`, non-empty fragment names; `noMetaSubsB`: no `__schema { … }` / `__type { … }`). The
+    conjunct "raises nothing" cannot be dropped: that the chain never raises is not proved (C05). -/
+theorem verdict_chain_iff (s : SchemaD) (hs : SchemaOutputs s) (d : Doc) (hd : DocOkM s d) :
+    verdictM ⟨s, Fixes.all, Rule.all⟩ d = some true ↔
+      (visitDocumentPar (enterRuleM (memoFuel d)) ⟨s, Fixes.all, Rule.all⟩ d {}).rs.crash = none ∧
+        ∀ r ∈ Rule.all, SpecStd r s Fixes.all d := by
+  rw [verdictM_iff_alone s Fixes.all rfl d ((wfIdsB_iff d).mp hd.checks.ids),
+    verdict_iff_all_memo_std s Fixes.all headVars_all hs d hd]
+
+/-- the same for `verdict` (the chain with the UN-memoised overlap search, the code before fix 7e75356; `DocOk` adds the
+    static rank check) -/
+theorem verdict_iff_spec (s : SchemaD) (fx : Fixes) (hfx : HeadVars fx) (hs : SchemaOutputs s) (d : Doc) (hd : DocOk s d) :
+    verdict ⟨s, fx, Rule.all⟩ d = some true ↔
+      (visitDocument ⟨s, fx, Rule.all⟩ d {}).rs.crash = none ∧ ∀ r ∈ Rule.all, SpecAll r s fx d := by
+  rw [verdict_iff_alone s fx Rule.all rule_all_nodup d, verdict_iff_all s fx hfx hs d hd]
+
+/-- **the lone run of the memoised overlap rule: valid ⇒ no error AND no exception** (`Silent` / `SilentM` alone say nothing
+    about the exception flag) -/
+theorem overlap_memo_accepts_and_no_crash (s : SchemaD) (fx : Fixes) (h7 : fx.v7 = true) (d : Doc) (hw : WfIds d)
+    (H : Spec.overlappingFieldsCanBeMerged s d) :
+    (overlapMemoRun s fx d).1 = 0 ∧ (overlapMemoRun s fx d).2.crash = none :=
+  ⟨overlap_memo_no_false_alarm s fx h7 d H, overlap_memo_run_no_crash s fx h7 d hw⟩
+
 /-! non-vacuity: the two-fragment document; both sides of `chainM_silent_iff_alone` hold for it (by evaluation) -/
+example : (visitDocumentPar (enterRuleM (memoFuel (oDocFrag "a"))) ⟨oSchema, Fixes.all, Rule.all⟩ (oDocFrag "a") {}).rs.crash = none := by
+  decide +kernel
 example : verdictM ⟨oSchema, Fixes.all, Rule.all⟩ (oDocFrag "a") = some true := by decide +kernel
 example : verdictM ⟨oSchema, Fixes.all, Rule.all⟩ (oDocFrag "b") = some false := by decide +kernel
 example : E (visitDocumentPar (enterRuleM (memoFuel (oDocFrag "a"))) ⟨oSchema, Fixes.all, Rule.all⟩ (oDocFrag "a") {}) = 0 := by
